@@ -23,13 +23,54 @@ import (
 
 func init() { register("C05", runC05) }
 
+// c05Held: every *GT reachable from an answer that an earlier, finished search of this process returned; the process keeps them all
+// (the caller of Run owns its answers).  A later search must never hand one of them out as a new variable.
+var (
+	c05HeldMu sync.Mutex
+	c05Held   = map[*GT]bool{}
+)
+
+func c05Hold(a any) {
+	var walk func(t *GT, depth int)
+	walk = func(t *GT, depth int) {
+		if t == nil || depth > 50 || c05Held[t] {
+			return
+		}
+		c05Held[t] = true
+		walk(t.A, depth+1)
+		walk(t.B, depth+1)
+		for _, e := range t.L {
+			walk(e, depth+1)
+		}
+	}
+	if t, ok := a.(*GT); ok {
+		c05HeldMu.Lock()
+		walk(t, 0)
+		c05HeldMu.Unlock()
+	}
+}
+
+func c05IsHeld(v *GT) bool {
+	c05HeldMu.Lock()
+	defer c05HeldMu.Unlock()
+	return c05Held[v]
+}
+
+// setFin puts a finalizer on a placeholder.  A placeholder the library hands out a second time (recycled while a finalizer of
+// an earlier probe is still pending) must not bring the process down ("finalizer already set" is fatal): the old one is cleared;
+// what the recycling does to variable identity is for the probes to observe.
+func setFin(p *GT, f func(*GT)) {
+	runtime.SetFinalizer(p, nil)
+	runtime.SetFinalizer(p, f)
+}
+
 //go:noinline
 func makeVarsAndDrop(n int, finalized *int64) *gomini.State {
 	st := gomini.NewState()
 	for i := 0; i < n; i++ {
 		var p *GT
 		st, p = gomini.NewVar[*GT](st)
-		runtime.SetFinalizer(p, func(*GT) { atomic.AddInt64(finalized, 1) })
+		setFin(p, func(*GT) { atomic.AddInt64(finalized, 1) })
 	}
 	return st // the placeholders are now referenced by nothing but (possibly) the state
 }
@@ -44,7 +85,7 @@ func makeLineageTree(k0, sib, depth int, finalized *int64) []*gomini.State {
 	nv := func(st *gomini.State) *gomini.State {
 		var p *GT
 		st, p = gomini.NewVar[*GT](st)
-		runtime.SetFinalizer(p, func(*GT) { atomic.AddInt64(finalized, 1) })
+		setFin(p, func(*GT) { atomic.AddInt64(finalized, 1) })
 		return st
 	}
 	for i := 0; i < k0; i++ {
@@ -218,10 +259,16 @@ type c05prog struct {
 	where     []string       // per kept state: position of the capture goal in the program
 	nvars     int
 	dups      int // ExistO handed out a variable that is already a variable of this search
+	reused    int // ExistO handed out a pointer that an answer of an earlier, finished search still contains
 }
 
 func (p *c05prog) exist(body func(v *GT) gomini.Goal) gomini.Goal {
 	return gomini.ExistO(func(v *GT) gomini.Goal {
+		if c05IsHeld(v) {
+			p.mu.Lock()
+			p.reused++
+			p.mu.Unlock()
+		}
 		p.mu.Lock()
 		if _, dup := p.ids[v]; dup { // every variable is held by p.alive, so this is not a recycled address
 			p.dups++
@@ -233,7 +280,7 @@ func (p *c05prog) exist(body func(v *GT) gomini.Goal) gomini.Goal {
 		p.alive = append(p.alive, v)
 		p.ids[v] = id
 		p.mu.Unlock()
-		runtime.SetFinalizer(v, func(*GT) { p.mu.Lock(); p.finalized[id] = true; p.mu.Unlock() })
+		setFin(v, func(*GT) { p.mu.Lock(); p.finalized[id] = true; p.mu.Unlock() })
 		return body(v)
 	})
 }
@@ -316,8 +363,19 @@ func statesOfPrograms(r *rand.Rand, m int) (bad []string, nkept, nvars int, prog
 	g, d := p.gen(r, 2+r.Intn(2), "")
 	prog = d
 	ctx, cancel := context.WithTimeout(context.Background(), 30*time.Second)
-	gomini.RunTake(ctx, -1, gomini.NewState(), func(q *GT) gomini.Goal { return gomini.ConjO(g, gomini.EqualO(q, q)) })
+	// the query is bound to a record of two variables in one branch and left unbound in the other: the answers contain unbound variables
+	answers := gomini.RunTake(ctx, -1, gomini.NewState(), func(q *GT) gomini.Goal {
+		return gomini.ConjO(g, gomini.DisjO(gomini.EqualO(q, q), p.exist(func(a *GT) gomini.Goal {
+			return p.exist(func(b *GT) gomini.Goal { return gomini.EqualO(q, &GT{A: a, B: b}) })
+		})))
+	})
 	cancel()
+	if p.reused > 0 {
+		bad = append(bad, fmt.Sprintf("ExistO handed its body, as a NEW variable, a pointer that an answer of an earlier (finished) search of this process still contains, %d times: the caller's value has become a variable of an unrelated state", p.reused))
+	}
+	for _, a := range answers { // the caller keeps its answers
+		c05Hold(a)
+	}
 	p.mu.Lock()
 	p.alive, p.ids = nil, nil
 	kept, listed, where := p.kept, p.listed, p.where
